@@ -1304,6 +1304,28 @@ def unstubbed(ctx, G):
     if (m.stable, m.direction, m.generating_orbit.period) != (m2.stable, m2.direction, m2.generating_orbit.period) or \
             not arr_eq(m.generating_orbit.initial_state, m2.generating_orbit.initial_state):
         ctx.violation("saveload:manifold", "Manifold.save/load changes observable state", {})
+    # a COMPUTED manifold: result / trajectories survive the round trip (real numerics, small: two branches)
+    try:
+        res = m.compute(step=0.5, integration_fraction=0.1, show_progress=False)
+        ntr = len(m.trajectories)
+    except Exception as ex:   # the generic seed orbit admits no manifold on this tree: nothing to round-trip
+        res, ntr = None, 0
+        ctx.notes.append("saveload:manifold-computed skipped: compute raised %s" % type(ex).__name__)
+    if res is not None:
+        p = os.path.join(H.tmp, "man2.pkl")
+        m.save(p)
+        m3 = H.Manifold.load(p)
+        ctx.case(("saveload", "manifold-computed"), kind="save/load")
+        r3 = m3.result
+        t3 = m3.trajectories
+        same = r3 is not None and t3 is not None and len(t3) == ntr and all(
+            arr_eq(np.asarray(a.states), np.asarray(b.states)) and arr_eq(np.asarray(a.times), np.asarray(b.times)) for a, b in zip(m.trajectories, t3))
+        if not same:
+            ctx.violation("saveload:manifold-computed", "a computed Manifold loses its result / trajectories in a save/load round trip "
+                          "(loaded.result is None: %s, trajectories: %s, expected %d)" % (r3 is None, None if t3 is None else len(t3), ntr),
+                          {"history": "Manifold(orbit).compute(step=0.5, integration_fraction=0.1); save; load; result; trajectories",
+                           "orbit": "GenericOrbit(L1 earth-moon), period 0.7", "trajectories_before": ntr,
+                           "loaded_result_is_None": r3 is None, "loaded_trajectories": None if t3 is None else len(t3)})
     # --- un-stubbed reconfirmation of the stale-read findings (cheap real numerics)
     if not G["oflags"][0]:
         g = H.GenericOrbit(H.l1, initial_state=[x0[0], 0, 0, 0, 0.05, 0])
